@@ -229,22 +229,26 @@ func ProfileFor(prop string) Profile {
 		p.WObserve = 16
 	case "widekids":
 		// one var feeding 66 observed maps: its dependent list is past the edge index threshold;
-		// then churn: unobserve / re-observe / unobserve again, writes and passes
+		// two dependents that take the hub twice (duplicate edges in the wide list) and observers
+		// directly on the hub (its observer list and its dependent list are indexed separately);
+		// then churn: unobserve / re-observe / unobserve again, input edits, writes and passes
 		p.Prefix = []Op{{K: "NewVar", V: 1}}
 		for i := 0; i < 66; i++ {
 			p.Prefix = append(p.Prefix, Op{K: "NewMap", F1: Fn1{1, i % 7}, A: 0})
 		}
+		p.Prefix = append(p.Prefix, Op{K: "NewVar", V: 2},
+			Op{K: "NewMapN", FN: "Sum", Ins: []int{0, 0, 67}}, Op{K: "NewMapN", FN: "WSum", Ins: []int{0, 67, 0}})
 		for i := 0; i < 66; i++ {
 			p.Prefix = append(p.Prefix, Op{K: "Observe", A: 1 + i})
 		}
-		p.Prefix = append(p.Prefix, Op{K: "Stabilize"})
-		p.Ops = len(p.Prefix) + 24
+		p.Prefix = append(p.Prefix, Op{K: "Observe", A: 68}, Op{K: "Observe", A: 69}, Op{K: "Observe", A: 0}, Op{K: "Observe", A: 0}, Op{K: "Stabilize"})
+		p.Ops = len(p.Prefix) + 28
 		p.WNew = 2
-		p.WObserve = 30
+		p.WObserve = 28
 		p.WUnobserve = 34
 		p.WSet = 14
 		p.WStabilize = 16
-		p.WAddRemove = 0
+		p.WAddRemove = 8
 		p.Wide = true
 	case "wide":
 		p.Wide = true
